@@ -23,14 +23,16 @@ def mod(name):
 
 def run_and_judge(ctx, pre, op, now, meta):
     observe = bool(meta.get("observe"))
+    meta = dict(meta, _now=now)
     r = ops.run_cmd(ctx, pre, op, now, observe=observe)
     res, post = r[0], r[1]
-    obs = r[2] if observe else None
+    obs = r[2] if observe else {}
+    obs["root"] = ctx.root
     viols = []
     for o in meta["oracles"]:
         vs = mod(o).judge(pre, op, post, res, obs, meta)
         for v in vs:
-            v.case = {"pre": pre, "op": op, "now": now, "meta": {k: meta[k] for k in meta if k != "trail"},
+            v.case = {"pre": pre, "op": op, "now": now, "meta": {k: meta[k] for k in meta if not k.startswith("_")},
                       "oracle": o}
         viols += vs
     return res, post, viols
@@ -43,7 +45,7 @@ def expand(ctx, item):
         if ops.is_edit(op):
             out.append((op, ops.edit(tree, op) if cont else None, m2, [], "edit:" + op[0]))
             continue
-        now = sub.NOW0 + 10 * meta.get("clock", depth)
+        now = sub.NOW0 + (0 if meta.get("frozen") else 10 * meta.get("clock", depth))
         res, post, viols = run_and_judge(ctx, tree, op, now, meta)
         cls = (op[0], res.exit)
         o0 = mod(meta["oracles"][0])
